@@ -154,7 +154,8 @@ impl<'a> StateMachine<'a> {
                 self.source = detect_source(&self.line);
                 // Handle (rare) plain `diff -u file1 file2` header. Done here to avoid having
                 // to introduce and handle a Source::DiffUnifiedAmbiguous variant everywhere.
-                if self.line.starts_with("--- ") {
+                // (Also when the output starts with a "diff -u ..." or "Only in ..." line.)
+                if self.source == Source::DiffUnified {
                     self.minus_line_counter = AmbiguousDiffMinusCounter::prepare_to_count();
                 }
             }
